@@ -233,6 +233,11 @@ func genCellValue(r *rng, depth int) jsonline.Value {
 		return jsonline.NewValueAuto(genValue(r, depth+1))
 	case 2:
 		return jsonline.NewValueNil(allFormats[r.intn(len(allFormats))], rawTypeSamples[r.intn(len(rawTypeSamples))])
+	case 3:
+		// the constructor dedicated to a format (no raw type): what NewValue(v, format, nil) builds
+		v := genScalar(r)
+		return []func(interface{}) jsonline.Value{jsonline.NewValueString, jsonline.NewValueNumeric, jsonline.NewValueBoolean, jsonline.NewValueBinary,
+			jsonline.NewValueDate, jsonline.NewValueDateTime, jsonline.NewValueTimestamp, jsonline.NewValueHidden, jsonline.NewValueAuto}[r.intn(9)](v)
 	default:
 		return jsonline.NewValue(genScalar(r), allFormats[r.intn(len(allFormats))], rawTypeSamples[r.intn(len(rawTypeSamples))])
 	}
